@@ -154,7 +154,28 @@ func c05Check(c *core.Ctx, s histScenario) {
 	// light client remembering everything (source of "cached-proof-subset")
 	var lcProof u.Proof
 	var lcHashes []Hash
+	joined := false
 	for bi, b := range s.History.Blocks {
+		// A forest started from the bare roots (the other constructor) joins once per history: at the first
+		// state that has an empty root, or half-way if there is none (round 10, seeded change C05j - a
+		// constructor that leaves empty roots out; the damage shows when later additions reach that row).
+		if !joined && bi >= 1 && w.Stump.NumLeaves > 0 {
+			hasEmpty := false
+			for _, r := range w.Stump.Roots {
+				if r == (Hash{}) {
+					hasEmpty = true
+				}
+			}
+			if hasEmpty || bi >= len(s.History.Blocks)/2 {
+				joined = true
+				mp := u.NewMapPollardFromRoots(cloneHashes(w.Stump.Roots), w.Stump.NumLeaves, false)
+				w.Insts = append(w.Insts, &Inst{Cfg: InstCfg{Kind: "mappartial", Rows: 63}, Name: "mappartial/fromroots", MP: &mp, U: &mp, Rem: map[Hash]bool{}})
+				c.Count("from_roots_instances", 1)
+				if hasEmpty {
+					c.Count("from_roots_instances_started_over_an_empty_root", 1)
+				}
+			}
+		}
 		rec := w.PrepareBlock(b)
 		f := rec.Before.Forest()
 		enc := c05Encodings[(rot+bi)%len(c05Encodings)]
